@@ -348,7 +348,7 @@ def main(argv=None):
                      if x not in ("SKIPPED-AFTER-DEATH", "NOT-RUN") and not same(prop, o, x, y)]
             # a generated line that BOTH sides reject agrees silently and tests nothing: counted, reported in the evidence
             rejected = sum(1 for x, y in zip(impl, model) if x == "bad-op" and y == "bad-op")
-            if rejected:
+            if rejected and not b.name.startswith("corpus/"):   # corpus files may hold deliberately malformed lines
                 sys.stderr.write(f"WARNING property={pid} batch={b.name}: {rejected} generated line(s) answered bad-op by both sides\n")
             batch_stats.append({"batch": b.name, "ops": len(b.ops), "kind": b.kind, "exhaustive": b.exhaustive,
                                 "diffs": len(diffs), "deaths": len(deaths), "rejected_by_both": rejected, "seconds": round(time.time() - bt, 1), "note": b.note})
